@@ -322,6 +322,13 @@ def _iter_positions(t, depth=0):
         if last == "take" and len(x[2]) == 2:
             r, n = _iter_positions(x[2][0], depth + 1), const_val(x[2][1])
             return None if r is None or n is None else (r[0], r[1], r[1] + n - 1 if r[2] is None else min(r[2], r[1] + n - 1))
+        if last == "chain" and len(x[2]) == 2:
+            a_, b_ = _iter_positions(x[2][0], depth + 1), _iter_positions(x[2][1], depth + 1)
+            if a_ is None or b_ is None:
+                return None
+            return ("multi", (a_[1] if a_[0] == "multi" else [a_]) + (b_[1] if b_[0] == "multi" else [b_]))
+        if last not in ("index", "index_mut", "deref", "as_slice", "as_ref", "borrow", "split_at", "get", "to_vec"):
+            return None                                   # an adapter this rule does not know: undecided
     bv = byteview(x)
     if bv is None:
         return None
@@ -358,12 +365,12 @@ def reserved_bytes(ctx, prog, rule):
                 continue                     # a test of a computed quantity (alignment of the length) / handled below
             unknown.append(tree_str(strip_deep(val))[:80])
             continue
-        root, lo, hi = pos
-        hi = 14 if hi is None else hi
         n += 1
-        outside = sorted(p for p in range(lo, hi + 1) if p not in reserved)
-        if outside:
-            bad.append("bytes %d..%d are required to be zero, %s of them are not reserved" % (lo, hi, outside))
+        for root, lo, hi in (pos[1] if pos[0] == "multi" else [pos]):
+            hi = 14 if hi is None else hi
+            outside = sorted(p for p in range(lo, hi + 1) if p not in reserved)
+            if outside:
+                bad.append("bytes %d..%d are required to be zero, %s of them are not reserved" % (lo, hi, outside))
     # the same test as one `iter.any(|b| *b != 0)` / `!iter.all(|b| *b == 0)`
     for bi in f.cfg():
         t = f.blocks[bi]["term"]
@@ -397,12 +404,12 @@ def reserved_bytes(ctx, prog, rule):
         if pos is None:
             unknown.append(tree_str(strip_deep(d))[:80])
             continue
-        root, lo, hi = pos
-        hi = 14 if hi is None else hi
         n += 1
-        outside = sorted(p for p in range(lo, hi + 1) if p not in reserved)
-        if outside:
-            bad.append("bytes %d..%d are required to be zero, %s of them are not reserved" % (lo, hi, outside))
+        for root, lo, hi in (pos[1] if pos[0] == "multi" else [pos]):
+            hi = 14 if hi is None else hi
+            outside = sorted(p for p in range(lo, hi + 1) if p not in reserved)
+            if outside:
+                bad.append("bytes %d..%d are required to be zero, %s of them are not reserved" % (lo, hi, outside))
     verdict = False if bad else (None if unknown else True)
     ctx.ob(rule, "reserved-bytes/IndexPacketHeader::read", verdict, "zero tests on header bytes: %d, all within the reserved bytes {0, 7..14} of the 15-byte buffer%s%s" % (
         n, "; VIOLATED: " + "; ".join(bad) if bad else "", "; not recognised: %s" % unknown if unknown else ""), where=f.file_line(0))
